@@ -47,6 +47,7 @@ def generated_queries(tier='quick'):
         ('subselect-notin', 'SELECT a FROM int1.tbl1 WHERE b NOT IN (SELECT c FROM int2.tbl2 WHERE d = 1)'),
         ('subselect-target', 'SELECT a, (SELECT max(c) FROM int2.tbl2) FROM int1.tbl1'),
         ('subselect-from', 'SELECT x.a FROM (SELECT a FROM int1.tbl1 WHERE b = 1) AS x JOIN int2.tbl2 AS t2 ON x.a = t2.a'),
+        ('case-operand-subquery', "SELECT CASE (SELECT max(c) FROM int2.tbl2) WHEN 1 THEN 'a' ELSE 'b' END FROM int1.tbl1"),
         ('union', 'SELECT a FROM int1.tbl1 UNION SELECT a FROM int2.tbl2'),
         ('union-all', 'SELECT a FROM int1.tbl1 UNION ALL SELECT a FROM int2.tbl2'),
         ('cte', 'WITH c AS (SELECT a FROM int1.tbl1) SELECT * FROM c JOIN int2.tbl2 AS t2 ON c.a = t2.a'),
